@@ -495,6 +495,30 @@ theorem dumpCrown_writes_exact_path (cfg : DumpCfg) (crown : OutCrown) (obj : Li
     simp only [leafExpected, lookup_specVals, hmem id hid, ↓reduceIte]
     rfl
 
+/-- **End to end, dumping**: for a layout produced from a schema (whose crown is well formed — distinct
+    keys etc., a hypothesis validated by the correspondence), a successful dump without extra data holds
+    every presented field at its *documented* path — the same `pathOf` the loader reads from — unless
+    the field is absent from the object or omitted by omit_default. -/
+theorem dump_writes_documented_path (sch : Schema) (style : Style → String → String) (fields : List Field)
+    (l : OutLayout) (hl : outputLayout sch style fields = .ok l)
+    (cfg : DumpCfg) (obj : List (String × Val)) (out : Val)
+    (hmove : cfg.move = .none) (hwf : l.crown.wf cfg = true)
+    (hfields : ∀ id ∈ l.crown.fieldIds, ∃ f ∈ cfg.fields, f.id = id ∧ f.required = (cfg.field id).required)
+    (h : dumpModel cfg l.crown obj = .ok out)
+    (f : Field) (hf : f ∈ fields) (p : Path) (hpne : p ≠ [])
+    (hp : pathOf .out sch style fields (makeOutExtraMove sch.extraOut).targetIds f = some p) :
+    out.getPath p =
+      match dumpedOf cfg obj f.id with
+      | none => none
+      | some v =>
+        match l.crown.sieveAt p with
+        | some dflt => if sieveKeeps dflt ((Val.lookup f.id obj).getD .none) then some v else none
+        | none => some v := by
+  have hleaf : (p, Leaf.field f.id) ∈ l.crown.leaves :=
+    ((out_crown_places_fields sch style fields l hl).1 p f.id).mpr ⟨f, hf, rfl, hp⟩
+  exact dumpCrown_writes_exact_path cfg l.crown obj out hmove hwf
+    (outputLayout_gapsNone sch style fields l hl) hfields h p (.field f.id) hleaf hpne
+
 /-- **omit_default removes exactly the fields whose value equals their default** (code's comparison:
     identity for the singleton defaults None/True/False, `==` otherwise), for a field directly under a
     dict node: the key is present iff the field was extracted and its raw value differs from the default. -/
